@@ -208,6 +208,98 @@ func genNaturalIdleOps(rng *rand.Rand, c *Case, unit int64) {
 	c.Ops = append(c.Ops, []string{"drain"})
 }
 
+// genLiveIdleOps: event times half an hour behind the wall clock, MAXOUTOFORDERNESS of one or two hours: an idle ticker
+// update sets the watermark to wall clock − MAXOUTOFORDERNESS, which is still behind every row, so nothing fires and
+// nothing becomes late; the windows fire when an event an hour ahead arrives. Every decision is at least 29 minutes
+// away from the wall clock, so the time the run itself takes cannot change one.
+func genLiveIdleOps(rng *rand.Rand, c *Case, unit, oooUnits int64) {
+	nextID := 1
+	front := int64(0)
+	add := func(ts int64) {
+		c.Ops = append(c.Ops, []string{"add", strconv.Itoa(nextID), itoa(ts)})
+		nextID++
+	}
+	deliver := func() {
+		if rng.Intn(3) == 0 {
+			c.Ops = append(c.Ops, []string{"drain"})
+		} else {
+			c.Ops = append(c.Ops, []string{"deliver"})
+		}
+	}
+	for i := 0; i < 2+rng.Intn(4); i++ {
+		front += int64(rng.Intn(3))
+		add(tsBase + front*unit + rng.Int63n(unit))
+		if rng.Intn(2) == 0 {
+			deliver()
+		}
+	}
+	for round := 0; round < 1+rng.Intn(2); round++ {
+		c.Ops = append(c.Ops, []string{"itick"})
+		deliver()
+		for i := 1 + rng.Intn(3); i > 0; i-- { // rows around the front: on time, the idle watermark is half an hour behind them
+			back := int64(rng.Intn(4))
+			if back > front {
+				back = front
+			}
+			add(tsBase + (front-back)*unit + rng.Int63n(unit))
+		}
+		if rng.Intn(2) == 0 {
+			c.Ops = append(c.Ops, []string{"tick"})
+		}
+		front += 1 + int64(rng.Intn(3))
+		add(tsBase + front*unit + rng.Int63n(unit))
+		deliver()
+	}
+	front += oooUnits + int64(rng.Intn(3)) // an event MAXOUTOFORDERNESS ahead: the windows so far fire from event time
+	add(tsBase + front*unit + rng.Int63n(unit))
+	c.Ops = append(c.Ops, []string{"drain"})
+	for i := rng.Intn(3); i > 0; i-- {
+		front += int64(rng.Intn(2))
+		add(tsBase + front*unit + rng.Int63n(unit))
+	}
+	c.Ops = append(c.Ops, []string{"itick"}, []string{"drain"})
+	front += oooUnits + 5
+	add(tsBase + front*unit)
+	c.Ops = append(c.Ops, []string{"drain"})
+}
+
+// idleCase: the IDLETIMEOUT scenarios of one window kind ("tumbling" / "sliding"), shared by C01, C02 and C08
+func idleCase(rng *rand.Rand, kind string) Case {
+	var c Case
+	size := int64(3_600_000_000_000)
+	ooo := []int64{0, size / 2, size}[rng.Intn(3)]
+	late := []int64{0, 0, size, 3 * size}[rng.Intn(4)]
+	if rng.Intn(4) == 0 {
+		// live timestamps (see genLiveIdleOps): windows of a second, tolerance of an hour or two
+		unit := int64(1_000_000_000)
+		oooU := []int64{3600, 7200}[rng.Intn(2)]
+		late = []int64{0, 0, unit, 3 * unit}[rng.Intn(4)]
+		if kind == "sliding" {
+			c.Cfg = [][]string{{"kind", "sliding"}, {"mode", "et"}, {"size", itoa(2 * unit)}, {"slide", itoa(unit)}, {"ooo", itoa(oooU * unit)}, {"late", itoa(late)}, {"now", "0"}, {"idle", itoa(size)}, {"live", "1"}, {"tsadd", "0"}}
+		} else {
+			c.Cfg = [][]string{{"kind", "tumbling"}, {"mode", "et"}, {"size", itoa(unit)}, {"ooo", itoa(oooU * unit)}, {"late", itoa(late)}, {"now", "0"}, {"idle", itoa(size)}, {"live", "1"}, {"tsadd", "0"}}
+		}
+		c.Stat = append(c.Stat, kind, "idle-and-busy-ticks", "live-timestamps")
+		genLiveIdleOps(rng, &c, unit, oooU)
+		return c
+	}
+	if kind == "sliding" {
+		c.Cfg = [][]string{{"kind", "sliding"}, {"mode", "et"}, {"size", itoa(2 * size)}, {"slide", itoa(size)}, {"ooo", itoa(ooo)}, {"late", itoa(late)}, {"now", "0"}, {"idle", itoa(size)}}
+	} else {
+		c.Cfg = [][]string{{"kind", "tumbling"}, {"mode", "et"}, {"size", itoa(size)}, {"ooo", itoa(ooo)}, {"late", itoa(late)}, {"now", "0"}, {"idle", itoa(size)}}
+	}
+	c.Stat = append(c.Stat, kind, "idle-and-busy-ticks")
+	if rng.Intn(3) == 0 {
+		// nothing forced: IDLETIMEOUT 30 ms, real naps of 45 ms, the watermark's own idle detection decides
+		setCfg(&c, "idle", "30000000")
+		c.Stat = append(c.Stat, "natural-idle-detection")
+		genNaturalIdleOps(rng, &c, size)
+		return c
+	}
+	genIdleOps(rng, &c, size, ooo)
+	return c
+}
+
 // genIdleOps: rounds of (idle tick, delivery, stale rows, busy tick, a stale row newer than everything seen, delivery)
 func genIdleOps(rng *rand.Rand, c *Case, unit, ooo int64) {
 	nextID := 1
@@ -272,26 +364,10 @@ func (c02) Gen(rng *rand.Rand, tier string, idx int) Case {
 	if idx%15 == 13 {
 		// IDLETIMEOUT of one hour with idle AND busy ticker updates placed by the harness (hook
 		// VerifWatermarkTickIdle): after an idle advance the watermark must stay where it is
-		size := int64(3_600_000_000_000)
-		ooo := []int64{0, size / 2, size}[rng.Intn(3)]
-		late := []int64{0, 0, size, 3 * size}[rng.Intn(4)]
 		if rng.Intn(3) == 0 {
-			c.Cfg = [][]string{{"kind", "sliding"}, {"mode", "et"}, {"size", itoa(2 * size)}, {"slide", itoa(size)}, {"ooo", itoa(ooo)}, {"late", itoa(late)}, {"now", "0"}, {"idle", itoa(size)}}
-			c.Stat = append(c.Stat, "sliding")
-		} else {
-			c.Cfg = [][]string{{"kind", "tumbling"}, {"mode", "et"}, {"size", itoa(size)}, {"ooo", itoa(ooo)}, {"late", itoa(late)}, {"now", "0"}, {"idle", itoa(size)}}
-			c.Stat = append(c.Stat, "tumbling")
+			return idleCase(rng, "sliding")
 		}
-		c.Stat = append(c.Stat, "idle-and-busy-ticks")
-		if rng.Intn(3) == 0 {
-			// nothing forced: IDLETIMEOUT 30 ms, real naps of 45 ms, the watermark's own idle detection decides
-			setCfg(&c, "idle", "30000000")
-			c.Stat = append(c.Stat, "natural-idle-detection")
-			genNaturalIdleOps(rng, &c, size)
-			return c
-		}
-		genIdleOps(rng, &c, size, ooo)
-		return c
+		return idleCase(rng, "tumbling")
 	}
 	switch k := rng.Intn(10); {
 	case k < 5: // tumbling with lateness
